@@ -91,7 +91,7 @@ static inline uint64_t fnvs(uint64_t h, const std::string &s) { return fnv(h, s.
 
 struct HarnessError { std::string msg; };
 struct Hang { std::string key, text; };   // a simulated program that stops making progress: reported as a violation (after the usual double replay), not as a harness error
-inline void Scenario::on_livelock(World &, Proc &p) { throw HarnessError{"livelock: " + p.name + " repeats the same calls forever and no other process can run"}; }
+inline void Scenario::on_livelock(World &, Proc &p) { std::string prog = p.name.substr(p.name.rfind('/') == std::string::npos ? 0 : p.name.rfind('/') + 1); throw Hang{"hang:busy-loop:" + prog, p.name + " repeats the same system calls with the same results for ever while no other process can run (busy loop)"}; }
 
 struct World {
   Kernel k;
